@@ -14,6 +14,8 @@ import (
 	"context"
 	"encoding/json"
 	"fmt"
+	"google.golang.org/protobuf/reflect/protoreflect"
+	"google.golang.org/protobuf/types/dynamicpb"
 	"math/rand"
 	stdh "net/http"
 	"runtime"
@@ -120,6 +122,7 @@ func newThriftFix(r *rand.Rand) *fix12 {
 		}},
 	}
 	fx.ops = append(fx.ops, newHTTPOp())
+	fx.ops = append(fx.ops, newBigThriftOps()...)
 	fx.descDump = func() string {
 		dd := DescJ{Structs: map[string][]FldJ{}}
 		dd.From = dumpTy(root, dd.Structs)
@@ -127,6 +130,81 @@ func newThriftFix(r *rand.Rand) *fix12 {
 		return string(bs)
 	}
 	return fx
+}
+
+// results beyond the pooled buffers' initial capacity (4 KiB) and beyond 16 KiB / 64 KiB: the converters' buffers have
+// to grow, and what grows there must not be what the caller gets
+func bigStrings() []string {
+	mk := func(n int) string {
+		b := make([]byte, n)
+		for i := range b {
+			b[i] = byte('a' + i%26)
+		}
+		return string(b)
+	}
+	return []string{mk(6000), mk(40), mk(70000), mk(20000)}
+}
+
+func newBigThriftOps() []*op12 {
+	idl := "namespace go big\nstruct Big {\n  1: string s\n  2: list<i64> l\n}\nservice S { Big M(1: Big r) }\n"
+	svc, err := thrift.NewDescritorFromContent(context.Background(), "big12.thrift", idl, nil, false)
+	if err != nil {
+		die("big idl: %v", err)
+	}
+	fn, _ := svc.LookupFunctionByMethod("M")
+	root := fn.Request().Struct().FieldById(1).Type()
+	ct := t2j.NewBinaryConv(conv.Options{})
+	cj := j2t.NewBinaryConv(conv.Options{})
+	var bins, jsons [][]byte
+	for _, s := range bigStrings() {
+		p := thrift.NewBinaryProtocolBuffer()
+		p.WriteFieldBegin("", thrift.STRING, 1)
+		p.WriteString(s)
+		p.WriteFieldBegin("", thrift.LIST, 2)
+		p.WriteListBegin(thrift.I64, 3)
+		p.WriteI64(1)
+		p.WriteI64(-2)
+		p.WriteI64(int64(len(s)))
+		p.WriteFieldStop()
+		bins = append(bins, append([]byte(nil), p.Buf...))
+		thrift.FreeBinaryProtocolBuffer(p)
+		jsons = append(jsons, []byte(fmt.Sprintf(`{"s":%q,"l":[1,-2,%d]}`, s, len(s))))
+	}
+	bins[2], jsons[2] = truncMid(bins[2]), garbleJSON(jsons[2])
+	errs := func() []bool { return []bool{false, false, true, false} }
+	return []*op12{
+		{name: "t2j.big", inputs: bins, isErr: errs(), f: func(in []byte) ([]byte, error) { return ct.Do(context.Background(), root, in) }},
+		{name: "j2t.big", inputs: jsons, isErr: errs(), f: func(in []byte) ([]byte, error) { return cj.Do(context.Background(), root, in) }},
+	}
+}
+
+func newBigProtoOps() []*op12 {
+	env, err := newPbEnv(PSchema{Root: "Root", Msgs: map[string][]PField{"Root": {
+		{Num: 1, Name: "s", JSON: "s", Kind: "string", Card: "one", JB: B("s"), NB: B("s")},
+		{Num: 2, Name: "l", JSON: "l", Kind: "int64", Card: "rep", Packed: true, JB: B("l"), NB: B("l")}}}})
+	if err != nil {
+		die("big proto schema: %v", err)
+	}
+	cp := p2j.NewBinaryConv(conv.Options{})
+	cj := j2p.NewBinaryConv(conv.Options{})
+	var bins, jsons [][]byte
+	for _, s := range bigStrings() {
+		m := dynamicpb.NewMessage(env.rroot)
+		m.Set(env.rroot.Fields().ByNumber(1), protoreflect.ValueOfString(s))
+		l := m.Mutable(env.rroot.Fields().ByNumber(2)).List()
+		l.Append(protoreflect.ValueOfInt64(1))
+		l.Append(protoreflect.ValueOfInt64(-2))
+		l.Append(protoreflect.ValueOfInt64(int64(len(s))))
+		bins = append(bins, refMarshal(m))
+		jsons = append(jsons, []byte(fmt.Sprintf(`{"s":%q,"l":[1,-2,%d]}`, s, len(s))))
+	}
+	bins[2], jsons[2] = truncMid(bins[2]), garbleJSON(jsons[2])
+	errs := func() []bool { return []bool{false, false, true, false} }
+	desc := env.droot
+	return []*op12{
+		{name: "p2j.big", inputs: bins, isErr: errs(), f: func(in []byte) ([]byte, error) { return cp.Do(context.Background(), desc, in) }},
+		{name: "j2p.big", inputs: jsons, isErr: errs(), f: func(in []byte) ([]byte, error) { return cj.Do(context.Background(), desc, in) }},
+	}
 }
 
 func newProtoFix(r *rand.Rand) *fix12 {
@@ -171,6 +249,7 @@ func newProtoFix(r *rand.Rand) *fix12 {
 			return pn.Marshal(&pgen.Options{})
 		}},
 	}
+	fx.ops = append(fx.ops, newBigProtoOps()...)
 	fx.descDump = func() string {
 		w := &dwalk{ids: map[*dproto.MessageDescriptor]int{}, nums: []int{1, 2, 3, 4, 5, 7, 15, 16, 17, 127, 128, 2047, 2048, 16383, 16384, 100000, 536870911}, keys: []string{"f_1", "f_2", "J1"}}
 		w.visit(desc)
